@@ -126,6 +126,16 @@ var Methods = []Method{
 	{Name: "/badloc__", Cmd: "BIND", Path: "sub__key", Bad: true},
 	{Name: "/badlocsub_", Cmd: "BOUND", Path: "sub._", Bad: true},
 	{Name: "/badlocdots", Cmd: "BOUND", Path: "key..x", Bad: true},
+	// names that resemble a listed name but are not listed ("no other method is mapped"): 19-24 are plain methods
+	{Name: "/noslash/Bound"}, // 19: the entry below lists the name without the leading slash
+	{Name: "bound"},          // 20: "/bound" is listed
+	{Name: "/Bound"},         // 21
+	{Name: "/bound/"},        // 22
+	{Name: "/boun"},          // 23
+	{Name: "//bound"},        // 24
+	{Name: "noslash/Bound", Cmd: "BOUND", Path: "key"}, // 25: listed exactly like this
+	{Name: "noslash/Bind", Cmd: "BIND", Path: "key"},   // 26
+	{Name: "/noslash/Bind"},                            // 27: not listed
 }
 
 // Msg is the request/response message shape used by the pool histories.
